@@ -157,8 +157,15 @@ func checkRewardC03(rc *RunCtx, ro *RewardObs) (nontrivial string) {
 			}
 		}
 		if pf == nil {
-			if len(f.Proofs) > 0 {
-				rc.Fail(P+"file-with-provers-deleted", "h=%d: file %s had provers %v and was deleted by the reward block", h, fileKey(f), f.Proofs)
+			// the chain may drop a file once nobody stores it any more (also in the very block that removes its last
+			// provers); dropping a file that still has a prover which met its obligation removes that prover wrongly
+			if len(want) > 0 {
+				rc.Fail(P+"file-with-provers-deleted", "h=%d: file %s was deleted by the reward block although provers %v met their obligation (listed before: %v)", h, fileKey(f), short(want), short(f.Proofs))
+			}
+			for _, pk := range f.Proofs {
+				if _, still := ro.Post.Proofs[pk]; still {
+					rc.Fail(P+"removed-proof-record-left", "h=%d: proof record %s still present after its file was dropped", h, pk)
+				}
 			}
 			continue
 		}
